@@ -4,9 +4,12 @@ package main
 
 import (
 	"fmt"
+	"runtime"
 	"sort"
 	"strings"
 
+	sp "github.com/at-wat/mqtt-go/internal/verif/selfprog"
+	spn "github.com/at-wat/mqtt-go/internal/verif/selfprognative"
 	vctx "github.com/at-wat/mqtt-go/internal/verif/shim/context"
 	vsync "github.com/at-wat/mqtt-go/internal/verif/shim/sync"
 	vtime "github.com/at-wat/mqtt-go/internal/verif/shim/time"
@@ -29,6 +32,7 @@ type selfCase struct {
 }
 
 func runSelf(c *Ctx) {
+	selfConformance(c)
 	cases := selfCases()
 	for i := range cases {
 		sc := &cases[i]
@@ -375,4 +379,88 @@ func selfCases() []selfCase {
 		}
 	}})
 	return cs
+}
+
+
+// selfConformance: outcomes(native Go) ⊆ outcomes(vrt, exhaustive) ⊆ Allowed for every
+// micro-program of package selfprog (same source, compiled unchanged and rewritten).
+func selfConformance(c *Ctx) {
+	if c.Only != "" {
+		return
+	}
+	old := runtime.GOMAXPROCS(4)
+	defer runtime.GOMAXPROCS(old)
+	for i := range sp.Progs {
+		if !c.Mine(int64(1000 + i)) {
+			continue
+		}
+		p := sp.Progs[i]
+		np := spn.Progs[i]
+		if p.Name != np.Name {
+			c.EnumFail("conformance", "catalogue-mismatch", p.Name+" vs "+np.Name, nil)
+			continue
+		}
+		native := map[string]int{}
+		for k := 0; k < 400; k++ {
+			native[np.Run()]++
+			if k%7 == 0 {
+				runtime.Gosched()
+			}
+		}
+		explored := map[string]bool{}
+		var out string
+		s := &vrt.Scenario{Name: "SELF/conformance/" + p.Name, Bound: vrt.Budget{P: 2, S: 2, T: 1, Total: 3},
+			Cfg:     vrt.Config{EarlyTimers: true, Horizon: int64(3 * 3600e9)},
+			Body:    func() { out = "<aborted>"; out = p.Run() },
+			Observe: func() uint64 { explored[out] = true; return vrt.HashString(out) },
+		}
+		ex := &vrt.Explorer{Sc: s, Deadline: c.Deadline}
+		ex.Run()
+		c.Res.Scenarios++
+		c.Res.Execs += ex.Stats.Execs
+		c.Res.States += ex.Stats.States
+		c.Res.Transitions += ex.Stats.Transitions
+		c.Res.Distinct += int64(len(explored))
+		if e := ex.EngineError(); e != "" {
+			c.Res.EngineError = p.Name + ": " + e
+			continue
+		}
+		for _, v := range ex.Violations {
+			c.EnumFail("conformance", p.Name+"/failure:"+v.Key, v.Msg, nil)
+		}
+		allowed := map[string]bool{}
+		for _, a := range p.Allowed {
+			allowed[a] = true
+		}
+		for o := range native {
+			if !explored[o] {
+				c.EnumFail("conformance", p.Name+"/missed-by-vrt", fmt.Sprintf("real Go produced %q (%d of 400 runs) but the exhaustive exploration only saw %v", o, native[o], keysOf(explored)), nil)
+			}
+			if !allowed[o] {
+				c.EnumFail("conformance", p.Name+"/catalogue-wrong", fmt.Sprintf("real Go produced %q which the catalogue does not allow (%v)", o, p.Allowed), nil)
+			}
+		}
+		for o := range explored {
+			if !allowed[o] {
+				c.EnumFail("conformance", p.Name+"/invented-by-vrt", fmt.Sprintf("the exploration produced %q which Go's semantics do not allow (%v)", o, p.Allowed), nil)
+			}
+		}
+		if ex.Stats.Complete {
+			for _, a := range p.Allowed {
+				if !explored[a] {
+					c.Note("conformance %s: allowed outcome %q was not reached within the bound", p.Name, a)
+				}
+			}
+		}
+		c.Sample(map[string]any{"conformance": p.Name, "native": fmt.Sprint(native), "vrt": keysOf(explored), "executions": ex.Stats.Execs})
+	}
+}
+
+func keysOf(m map[string]bool) []string {
+	var ks []string
+	for k := range m {
+		ks = append(ks, k)
+	}
+	sort.Strings(ks)
+	return ks
 }
